@@ -51,6 +51,8 @@ pub open spec fn itdma_post(data: (&[u8], usize), r: nom::IResult<(&[u8], usize)
 pub open spec fn radio_post(input: (&[u8], usize), t: u8, r: nom::IResult<(&[u8], usize), RadioStatus>) -> bool {
     &&& (t == 1 || t == 2 || t == 4 || t == 11 ==> sotdma_post(input, r))
     &&& (t == 3 ==> itdma_post(input, r))
+    // helper (from the code, not from M.1371): type 9 is routed to SOTDMA without looking at the selector bit
+    &&& (t == 9 ==> sotdma_post(input, r))
     &&& (r is Ok ==> cur_ok(r->Ok_0.0))
 }
 ''' + '''
